@@ -134,13 +134,13 @@ def sliceLine (line : String) (b e : Nat) : String :=
   String.ofList ((line.toList.drop b).take (e - b))
 
 def isIdentStr (s : String) : Bool := isIdent s
-def isModuleStr (s : String) : Bool := isSelector (s.splitOn ".")
+def isModuleStr (s : String) : Bool := isSelector (splitChar s '.')
 
 /-- the final check of `_parse_selector` (395-413): the consumed tokens must be contiguous in the
     physical line (`raw` is `line[begin:end]`), every scope an identifier (or dotted name when
     periods are allowed), the last part a dotted name, and scopes present only when allowed -/
 def checkSelector (sel raw : String) (allowScopes periodsInScope : Bool) : Bool :=
-  let scopeParts := sel.splitOn "/"
+  let scopeParts := splitChar sel '/'
   let scopesOk := (scopeParts.dropLast).all (fun s => if periodsInScope then isModuleStr s else isIdentStr s)
   let lastOk := isModuleStr (scopeParts.getLastD "")
   let shapeOk := allowScopes || scopeParts.length == 1
@@ -293,13 +293,13 @@ deriving Repr, Inhabited
 
 /-- `parse_scoped_selector` -/
 def splitScoped (s : String) : String × String :=
-  let parts := s.splitOn "/"
+  let parts := splitChar s '/'
   ("/".intercalate parts.dropLast, parts.getLastD "")
 
 /-- `parse_binding_key` -/
 def splitKey (s : String) : String × String × String :=
   let (scope, sel) := splitScoped s
-  let parts := sel.splitOn "."
+  let parts := splitChar sel '.'
   if parts.length ≤ 1 then (scope, sel, "")
   else (scope, ".".intercalate parts.dropLast, parts.getLastD "")
 
@@ -329,7 +329,7 @@ def blockMembers (scope sel : String) : Nat → List Token → List PStmt → P 
       | .error e => .error e
       | .ok (arg, ts1) => match expectOp "=" ts1 with
         | .error e => .error e
-        | .ok ts2 => match parseValue true ts2.length ts2 with
+        | .ok ts2 => match parseValue true (3 * ts2.length + 3) ts2 with
           | .error e => .error e
           | .ok (v, ts3) => match expectKind .newline ts3 with
             | .error e => .error e
@@ -362,7 +362,7 @@ def parseStatement (pending : Bool) (ts : List Token) : P (Option (List PStmt ×
       if (cur ts2).str == "=" && (cur ts2).kind == .op then
         match advOne ts2 with
         | .error e => .error e
-        | .ok ts3 => match parseValue false ts3.length ts3 with
+        | .ok ts3 => match parseValue false (3 * ts3.length + 3) ts3 with
           | .error e => .error e
           | .ok (v, ts4) =>
             let (scope, sel, arg) := splitKey key
